@@ -88,8 +88,11 @@ class Bounded:
         self.evaluations += 1
         if nontrivial:
             self.distinct.add(key)
+        import contextlib
+        import io
         try:
-            res = fn()
+            with contextlib.redirect_stdout(io.StringIO()):     # the library prints progress / warnings
+                res = fn()
         except Exception as e:
             tb = traceback.format_exc().splitlines()
             res = {"exception": f"{type(e).__name__}: {e}", "trace": tb[-6:]}
